@@ -23,3 +23,36 @@ def bv_units(sidecars, key, ordinals, tier):
 
 def diff_units(sidecars, keys, tier):
     return [("differential", sidecars, k, tier) for k in keys]
+
+
+def replay_rows(vc, unit):
+    """native replay of a row / relation obligation of pyvc.sensor_harness"""
+    from pyvc import units
+    w = vc.get("witness") or {}
+    name = vc["name"]
+    clause = name.rsplit("/", 1)[-1]
+    if not all(k in w for k in ("payload", "first", "table", "id")) or not isinstance(w["first"], int):
+        return None
+    kw = {"table": w["table"], "payload": w["payload"], "first": w["first"]}
+    if name.startswith("rows:"):
+        func, kw["sid"], kw["clause"], mod = "replay_row", w["id"], clause, "contracts.sensor_native"
+    elif name.startswith("single:"):
+        func, kw["sid"], kw["clause"], mod = "replay_single", w["id"], clause, "contracts.sensor_native"
+    elif name.startswith("derived:"):
+        func, kw["name"], mod = "replay_relation", w["id"], "contracts.derived"
+    else:
+        return None
+    task = {"op": "func", "module": mod, "func": func, "kwargs": kw}
+    out = units.native_batch([task])[0]
+    rec = {"kind": "script", "native_task": task, "native_result": out}
+    if not out["ok"]:
+        return None, rec
+    from pyvc.native import dec
+    res = dec(out["result"])
+    rec["native_result"] = res
+    return bool(res.get("violates")), rec
+
+
+def script_units(sidecars, func, prefix, props, tier, tables):
+    return [("script", sidecars, "pyvc.sensor_harness", func, f"{prefix}:{t}", props, tier, {"tname": t})
+            for t in tables]
